@@ -149,7 +149,7 @@ func (c *wConn) Read(p []byte) (int, error) {
 
 func (c *wConn) Write(p []byte) (int, error) {
 	c.note(wEvent{kind: 'w', data: append([]byte{}, p...)})
-	if c.pipe != nil {
+	if c.pipe != nil && len(p) > 0 { // (a zero-length write on a net.Pipe would block until the peer reads)
 		return c.pipe.Write(p)
 	}
 	return len(p), nil
